@@ -34,7 +34,7 @@ inductive Eff (s : FSt) (l : FLab) : FSt → Prop
   | set (h : Nat) (st st' : BgStatus) : s.statusOf h = some st → st ≠ .ended → st' ≠ .ended →
       (st' = .cancelAsked → l = .cancelReq h) → (∀ x e, l ≠ .handlerCalled x e) →
       Eff s l { s.setStatus h st' with hist := s.hist ++ [l] }
-  | finish (h : Nat) (cr hc : List Nat) :
+  | finish (h : Nat) (cr hc : List Nat) : s.statusOf h ≠ none →
       ((hc = s.handlerCalls ∧ ∀ x e, l ≠ .handlerCalled x e) ∨
         (∃ e, l = .handlerCalled h e ∧ h ∉ s.handlerCalls ∧ hc = h :: s.handlerCalls)) →
       Eff s l { s.finish h with crashed := cr, handlerCalls := hc, hist := s.hist ++ [l] }
@@ -102,12 +102,13 @@ theorem fstep_eff (s s' : FSt) (l : FLab) (h : fstep? s l = some s') : Eff s l s
       | none => simp [hsp, hst] at h
       | some st =>
         simp only [hsp, hst] at h
+        have hdom : s.statusOf x ≠ none := by rw [hst]; simp
         have hfin : Eff s (.taskEnded x exc) { s.finish x with hist := s.hist ++ [.taskEnded x exc] } :=
-          Eff.finish (s := s) (l := .taskEnded x exc) x (s.finish x).crashed s.handlerCalls
+          Eff.finish (s := s) (l := .taskEnded x exc) x (s.finish x).crashed s.handlerCalls hdom
             (Or.inl ⟨rfl, by intros; simp⟩)
         have hfinE : ∀ e, Eff s (.taskEnded x exc)
             { s.finish x with crashed := s.crashed ++ [e], hist := s.hist ++ [.taskEnded x exc] } :=
-          fun e => Eff.finish (s := s) (l := .taskEnded x exc) x (s.crashed ++ [e]) s.handlerCalls
+          fun e => Eff.finish (s := s) (l := .taskEnded x exc) x (s.crashed ++ [e]) s.handlerCalls hdom
             (Or.inl ⟨rfl, by intros; simp⟩)
         have hok0 : ∀ st0 : BgStatus,
             (st0 == .cancelled || (!s.crashed.isEmpty && (st0 == .running || st0 == .cancelAsked))) = true →
@@ -126,6 +127,11 @@ theorem fstep_eff (s s' : FSt) (l : FLab) (h : fstep? s l = some s') : Eff s l s
         · obtain ⟨hc, h⟩ := ite_none_right h
           split at h
           · injection h with h; subst h; exact hfinE _
+          · injection h with h; subst h
+            exact Eff.set x _ _ hst (by simp) (by simp) (by simp) (by intros; simp)
+        · obtain ⟨hc, h⟩ := ite_none_right h
+          split at h
+          · injection h with h; subst h; exact hfin
           · injection h with h; subst h
             exact Eff.set x _ _ hst (by simp) (by simp) (by simp) (by intros; simp)
         · obtain ⟨hc, h⟩ := ite_none_right h
@@ -150,9 +156,10 @@ theorem fstep_eff (s s' : FSt) (l : FLab) (h : fstep? s l = some s') : Eff s l s
       simp only [Bool.and_eq_true, Bool.not_eq_true', List.contains_eq_mem,
         decide_eq_false_iff_not] at hc
       subst h
-      cases truthy with
-      | true => exact Eff.finish x _ _ (Or.inr ⟨e, rfl, hc.2, rfl⟩)
-      | false => exact Eff.finish x _ _ (Or.inr ⟨e, rfl, hc.2, rfl⟩)
+      have hdom : s.statusOf x ≠ none := by rw [hst]; simp
+      cases hb : (truthy || s.startFailure x) with
+      | true => exact Eff.finish x _ _ hdom (Or.inr ⟨e, rfl, hc.2, rfl⟩)
+      | false => exact Eff.finish x _ _ hdom (Or.inr ⟨e, rfl, hc.2, rfl⟩)
     · exact absurd h (by simp)
   | observed hs =>
     unfold fstep? at h
@@ -169,6 +176,16 @@ theorem fstep_eff (s s' : FSt) (l : FLab) (h : fstep? s l = some s') : Eff s l s
     · exact absurd h (by simp)
     split at h
     · injection h with h
+      subst h
+      exact Eff.same s.exiting s.left s.reported (by intros; simp)
+    · exact absurd h (by simp)
+  | startFailed x =>
+    unfold fstep? at h
+    simp only [] at h
+    split at h
+    · exact absurd h (by simp)
+    split at h
+    · obtain ⟨hc, h⟩ := ite_some_none h
       subst h
       exact Eff.same s.exiting s.left s.reported (by intros; simp)
     · exact absurd h (by simp)
@@ -207,6 +224,7 @@ structure Inv (s : FSt) : Prop where
   asked : ∀ x, s.statusOf x = some .cancelAsked → FLab.cancelReq x ∈ s.hist
   once : ∀ x, (s.hist.filter (isHC x)).length ≤ 1 ∧
     (x ∉ s.handlerCalls → (s.hist.filter (isHC x)).length = 0)
+  dom : ∀ x, s.statusOf x ≠ none → x ∈ s.spawned
 
 theorem isHC_of_not (l : FLab) (hl : ∀ x e, l ≠ .handlerCalled x e) (x : Nat) : isHC x l = false := by
   cases l <;> first | rfl | exact absurd rfl (hl _ _)
@@ -217,17 +235,18 @@ theorem filter_snoc_false (hist : List FLab) (l : FLab) (x : Nat) (h : isHC x l 
 
 theorem init_inv (specs : List BgSpec) (hd : Handler) (snap : List Nat) :
     Inv (FSt.init specs hd snap) := by
-  refine ⟨?_, ?_, ?_⟩
+  refine ⟨?_, ?_, ?_, ?_⟩
   · intro x; simp [FSt.init]
   · intro x hx; simp [FSt.init, FSt.statusOf] at hx
   · intro x; simp [FSt.init]
+  · intro x hx; exact absurd rfl hx
 
 theorem Inv.step (s s' : FSt) (l : FLab) (hi : Inv s) (he : Eff s l s') : Inv s' := by
-  obtain ⟨h1, h2, h3⟩ := hi
+  obtain ⟨h1, h2, h3, h4⟩ := hi
   cases he with
   | spawn h hl hns =>
     subst hl
-    refine ⟨?_, ?_, ?_⟩
+    refine ⟨?_, ?_, ?_, ?_⟩
     · intro x
       show x ∈ s.live ++ [h] ↔ (x ∈ s.spawned ++ [h] ∧ (s.setStatus h .running).statusOf x ≠ _)
       rw [statusOf_setStatus]
@@ -247,8 +266,16 @@ theorem Inv.step (s s' : FSt) (l : FLab) (hi : Inv s) (he : Eff s l s') : Inv s'
       show ((s.hist ++ [FLab.spawn h]).filter (isHC x)).length ≤ 1 ∧
         (x ∉ s.handlerCalls → ((s.hist ++ [FLab.spawn h]).filter (isHC x)).length = 0)
       rw [filter_snoc_false _ _ _ rfl]; exact h3 x
+    · intro x hx
+      have hx' : (s.setStatus h .running).statusOf x ≠ none := hx
+      rw [statusOf_setStatus] at hx'
+      show x ∈ s.spawned ++ [h]
+      by_cases hxe : h = x
+      · simp [hxe]
+      · simp only [hxe, if_false] at hx'
+        exact List.mem_append_left _ (h4 x hx')
   | set h st st' hst hne hne' hask hl =>
-    refine ⟨?_, ?_, ?_⟩
+    refine ⟨?_, ?_, ?_, ?_⟩
     · intro x
       show x ∈ s.live ↔ (x ∈ s.spawned ∧ (s.setStatus h st').statusOf x ≠ _)
       rw [statusOf_setStatus, h1 x]
@@ -273,8 +300,16 @@ theorem Inv.step (s s' : FSt) (l : FLab) (hi : Inv s) (he : Eff s l s') : Inv s'
       show ((s.hist ++ [l]).filter (isHC x)).length ≤ 1 ∧
         (x ∉ s.handlerCalls → ((s.hist ++ [l]).filter (isHC x)).length = 0)
       rw [filter_snoc_false _ _ _ (isHC_of_not l hl x)]; exact h3 x
-  | finish h cr hc hcase =>
-    refine ⟨?_, ?_, ?_⟩
+    · intro x hx
+      have hx' : (s.setStatus h st').statusOf x ≠ none := hx
+      rw [statusOf_setStatus] at hx'
+      show x ∈ s.spawned
+      by_cases hxe : h = x
+      · subst hxe; exact h4 h (by rw [hst]; simp)
+      · simp only [hxe, if_false] at hx'
+        exact h4 x hx'
+  | finish h cr hc hdom hcase =>
+    refine ⟨?_, ?_, ?_, ?_⟩
     · intro x
       show x ∈ s.live.filter (· != h) ↔ (x ∈ s.spawned ∧ (s.setStatus h .ended).statusOf x ≠ _)
       rw [statusOf_setStatus, List.mem_filter, h1 x]
@@ -306,8 +341,16 @@ theorem Inv.step (s s' : FSt) (l : FLab) (hi : Inv s) (he : Eff s l s') : Inv s'
             simp only [isHC, beq_eq_false_iff_ne]; exact fun e => hx e.symm
           rw [filter_snoc_false _ _ _ hf]
           refine ⟨(h3 x).1, fun hn => (h3 x).2 (fun hm => hn (List.mem_cons_of_mem _ hm))⟩
+    · intro x hx
+      have hx' : (s.setStatus h .ended).statusOf x ≠ none := hx
+      rw [statusOf_setStatus] at hx'
+      show x ∈ s.spawned
+      by_cases hxe : h = x
+      · subst hxe; exact h4 h hdom
+      · simp only [hxe, if_false] at hx'
+        exact h4 x hx'
   | same b1 b2 b3 hl =>
-    refine ⟨h1, ?_, ?_⟩
+    refine ⟨h1, ?_, ?_, h4⟩
     · intro x hx
       exact List.mem_append_left _ (h2 x hx)
     · intro x
@@ -393,9 +436,28 @@ theorem fstep_blockLeft (s s' : FSt) (h : fstep? s .blockLeft = some s') :
     List.isEmpty_eq_false_iff] at hc
   exact hc.2
 
+/-- `startFailure`, unfolded. -/
+theorem startFailure_of_spec (s : FSt) (x e : Nat) (sp : BgSpec) (hsp : s.spec? x = some sp)
+    (hb : sp.beh = .failsBeforeStarted e) : s.startFailure x = true := by
+  unfold FSt.startFailure
+  rw [hsp]
+  cases sp with
+  | mk h0 b => simp only at hb; subst hb; rfl
+
+theorem spec_of_startFailure (s : FSt) (x : Nat) (h : s.startFailure x = true) :
+    ∃ sp e, s.spec? x = some sp ∧ sp.beh = .failsBeforeStarted e := by
+  unfold FSt.startFailure at h
+  split at h
+  · rename_i h0 e heq; exact ⟨_, e, heq, rfl⟩
+  · exact absurd h (by simp)
+
+/-- Inversion of a call of the handler: the task is finished; its exception is swallowed if the handler
+returns a truthy value or the task had not started yet, and propagates otherwise. -/
 theorem fstep_handlerCalled (s s' : FSt) (x e : Nat) (h : fstep? s (.handlerCalled x e) = some s') :
     ∃ truthy, s.handler = .returns truthy ∧ s.statusOf x = some (.raisedPending e) ∧
-      (truthy = true → s'.crashed = s.crashed) ∧ (truthy = false → s'.crashed = s.crashed ++ [e]) := by
+      s'.statusOf x = some .ended ∧
+      ((truthy || s.startFailure x) = true → s'.crashed = s.crashed) ∧
+      ((truthy || s.startFailure x) = false → s'.crashed = s.crashed ++ [e]) := by
   unfold fstep? at h
   simp only [] at h
   split at h
@@ -408,14 +470,23 @@ theorem fstep_handlerCalled (s s' : FSt) (x e : Nat) (h : fstep? s (.handlerCall
     have he : e = e' := hc.1
     subst he
     subst h2
-    refine ⟨truthy, hh, hst, ?_, ?_⟩
-    · intro ht; subst ht; rfl
-    · intro ht; subst ht; rfl
+    have hend : ∀ t : FSt, t.status = (s.finish x).status → t.statusOf x = some .ended := by
+      intro t ht
+      show alookup x t.status = _
+      rw [ht]
+      show (s.setStatus x .ended).statusOf x = _
+      rw [statusOf_setStatus]; simp
+    refine ⟨truthy, hh, hst, ?_, ?_, ?_⟩
+    · cases hb : (truthy || s.startFailure x) <;> exact hend _ (by simp only [hb]; rfl)
+    · intro ht; simp only [ht]; rfl
+    · intro ht; simp only [ht]; rfl
   · exact absurd h (by simp)
 
-/-- Inversion of a task ending with an exception: whatever the task's status and behaviour, the
+/-- Inversion of a task ending with an exception: whatever the task's status and behaviour — unless it
+is a task that fails, still running, before it has started (`fstep_taskEnded_startFailure`) — the
 exception propagates at once (no handler) or is left pending for the handler. -/
 theorem fstep_taskEnded_some (s s' : FSt) (x e : Nat)
+    (hns : s.startFailure x = false ∨ s.statusOf x ≠ some .running)
     (h : fstep? s (.taskEnded x (some e)) = some s') :
     (s.handler = .absent ∧ s'.crashed = s.crashed ++ [e]) ∨
       (∃ t, s.handler = .returns t ∧ s'.statusOf x = some (.raisedPending e)) := by
@@ -461,6 +532,11 @@ theorem fstep_taskEnded_some (s s' : FSt) (x e : Nat)
         · rename_i hh; injection h3 with h3; subst h3; exact Or.inl ⟨hh, fin e0 hc _ rfl⟩
         · rename_i t hh; injection h3 with h3; subst h3; exact Or.inr ⟨t, hh, pend e0 hc _⟩
       · rename_i e0 e1 hb heq
+        have hsf := startFailure_of_spec s x e0 sp hsp hb
+        rcases hns with hns | hns
+        · rw [hsf] at hns; exact absurd hns (by simp)
+        · exact absurd hst hns
+      · rename_i e0 e1 hb heq
         obtain ⟨hc, h3⟩ := ite_none_right h
         have hc := (Bool.and_eq_true _ _ ▸ hc).1
         have h2 : e = e1 := by simpa using heq
@@ -474,10 +550,65 @@ theorem fstep_taskEnded_some (s s' : FSt) (x e : Nat)
         simp at hc
 
 theorem fstep_taskEnded_absent (s s' : FSt) (x e : Nat) (hh : s.handler = .absent)
+    (hsf : s.startFailure x = false)
     (h : fstep? s (.taskEnded x (some e)) = some s') : s'.crashed = s.crashed ++ [e] := by
-  rcases fstep_taskEnded_some s s' x e h with ⟨_, hc⟩ | ⟨t, ht, _⟩
+  rcases fstep_taskEnded_some s s' x e (Or.inl hsf) h with ⟨_, hc⟩ | ⟨t, ht, _⟩
   · exact hc
   · rw [hh] at ht; exact absurd ht (by simp)
+
+/-- Inversion of the end of a task that fails before it has started: nothing escapes into the task
+group, and (unless the application has been taken down, or the task was cancelled through its handle
+before it ran) it ends while running, with its exception. -/
+theorem fstep_taskEnded_startFailure (s s' : FSt) (x e : Nat) (exc : Option Nat) (sp : BgSpec)
+    (hsp : s.spec? x = some sp) (hb : sp.beh = .failsBeforeStarted e)
+    (h : fstep? s (.taskEnded x exc) = some s') :
+    s'.crashed = s.crashed ∧
+      ((s.statusOf x = some .running ∧ exc = some e) ∨
+        (exc = none ∧ (s.statusOf x = some .cancelled ∨ s.crashed ≠ []))) := by
+  unfold fstep? at h
+  simp only [] at h
+  split at h
+  · exact absurd h (by simp)
+  cases hst : s.statusOf x with
+  | none => simp [hsp, hst] at h
+  | some st =>
+    simp only [hsp, hst, hb] at h
+    split at h
+    · rename_i heq; exact absurd heq (by simp)
+    · rename_i heq; exact absurd heq (by simp)
+    · rename_i heq; exact absurd heq (by simp)
+    · rename_i heq; exact absurd heq (by simp)
+    · rename_i e0 e1 heq
+      injection heq with heq
+      subst heq
+      obtain ⟨hc, h3⟩ := ite_none_right h
+      have h2 : e = e1 := by simpa using hc
+      subst h2
+      refine ⟨?_, Or.inl ⟨rfl, rfl⟩⟩
+      split at h3
+      · injection h3 with h3; subst h3; rfl
+      · injection h3 with h3; subst h3; rfl
+    · rename_i heq; exact absurd heq (by simp)
+    · rename_i heq; exact absurd heq (by simp)
+    · injection h with h; subst h
+      exact ⟨rfl, Or.inr ⟨rfl, Or.inl rfl⟩⟩
+    · obtain ⟨hc, h3⟩ := ite_some_none h
+      subst h3
+      simp only [Bool.and_eq_true, Bool.not_eq_true', List.isEmpty_eq_false_iff,
+        Option.isNone_iff_eq_none] at hc
+      exact ⟨rfl, Or.inr ⟨hc.2, Or.inr hc.1⟩⟩
+
+theorem fstep_startFailed (s s' : FSt) (x : Nat) (h : fstep? s (.startFailed x) = some s') :
+    s.startFailure x = true ∧ s.statusOf x = some .ended := by
+  unfold fstep? at h
+  simp only [] at h
+  split at h
+  · exact absurd h (by simp)
+  split at h
+  · rename_i hst
+    obtain ⟨hc, _⟩ := ite_some_none h
+    exact ⟨hc, hst⟩
+  · exact absurd h (by simp)
 
 theorem fstep_outcome (s s' : FSt) (leaves : List Nat) (h : fstep? s (.outcome leaves) = some s') :
     sortNat leaves = sortNat s.crashed ∧ s.left = true := by
